@@ -867,6 +867,11 @@ func init() {
 			cases = append(cases, &c15Case{proto: proto, mode: "live", stub: true, ops: []string{"S", "K"}},
 				&c15Case{proto: proto, mode: "live", stub: true, ops: []string{"C", "K"}})
 		}
+		// a test-mode plugin process that has stopped: reattaching to it is "process not found" too
+		for _, proto := range []string{"netrpc", "grpc"} {
+			impl, pred := runTestModeAfterStop(proto)
+			o.emit("!C15.testmode-after-stop proto="+proto, impl, pred)
+		}
 		// reattaching several times, from a reattached client's ReattachConfig(): live plugins and test-mode server processes
 		chains := c15ChainCases()
 		cases = append(cases, chains...)
